@@ -667,6 +667,13 @@ def _jsonl_prepass(f, cfg, mtree, notes):
                 notes.add('c19:const-fold')
                 return n.body if n.test.value else n.orelse
             return n
+
+        def visit_If(self, n):
+            self.generic_visit(n)
+            if isinstance(n.test, ast.Constant) and isinstance(n.test.value, bool):
+                notes.add('c19:const-fold')
+                return (n.body if n.test.value else n.orelse) or [ast.copy_location(ast.Pass(), n)]
+            return n
     _Kind().visit(f)
     for n in ast.walk(f):
         if isinstance(n, ast.Name) and n.id == 'isinstance':
